@@ -8,7 +8,7 @@ RULE = ("one sweep of SmootherGive and SmootherTake (1 and 4 threads, scratch ve
 
 
 def run(ctx):
-    ctx.prove(extra_modules=["GMGProofs.Props.C06c"])
+    ctx.prove(extra_modules=["GMGProofs.Props.C06c", "GMGProofs.Props.C06d"])
     h = ctx.build_harness("h_ops")
     ctx.pipe([h, "smooth", "60" if ctx.tier == "quick" else "1200", "13", "16"], "smooth", label="smoother-sweeps")
     # code-level model (GMGModel/SmootherCode.lean): stored line matrices, temp = rhs - A_sc^ortho x, one sweep
